@@ -12,6 +12,7 @@ macro_rules! dispatch {
         match $id {
             "C01" => fw::$f::<props::c01::C01>($($arg),*),
             "C02" => fw::$f::<props::c02::C02>($($arg),*),
+            "C03" => fw::$f::<props::c03::C03>($($arg),*),
             "C04" => fw::$f::<props::c04::C04>($($arg),*),
             "C05" => fw::$f::<props::c05::C05>($($arg),*),
             "C06" => fw::$f::<props::c06::C06>($($arg),*),
